@@ -3,15 +3,23 @@
 int shp_rs8_available(void) { return 0; }
 void shp_rs8_addmul1(uint8_t *d, uint8_t *s, uint8_t c, int sz) { (void)d; (void)s; (void)c; (void)sz; }
 int shp_rs8_table(int which, const void **p, size_t *es, size_t *cnt, size_t *stride) { (void)which; (void)p; (void)es; (void)cnt; (void)stride; return 0; }
+void shp_rs8_reinit(void) { }
 #else
 /* private copy of the translation unit: its globals are made local by the build (objcopy -G 'shp_*') */
 #include "lib_stable/reed-solomon_gf_2_8/of_reed-solomon_gf_2_8.c"
 #include "shim.h"
 int shp_rs8_available(void) { return 1; }
-void shp_rs8_addmul1(uint8_t *d, uint8_t *s, uint8_t c, int sz) { of_rs_init(); of_addmul1(d, s, c, sz); }
+void shp_rs8_addmul1(uint8_t *d, uint8_t *s, uint8_t c, int sz)
+{
+	static int first = 1;
+	if (first) { first = 0; of_rs_init(); }
+	of_addmul1(d, s, c, sz);
+}
+void shp_rs8_reinit(void) { of_rs_init(); }
 int shp_rs8_table(int which, const void **p, size_t *es, size_t *cnt, size_t *stride)
 {
-	of_rs_init();
+	static int first = 1;
+	if (first) { first = 0; of_rs_init(); }	/* generated at first use */
 	*stride = 0;
 	switch (which) {
 	case 0: *p = of_rs_gf_exp; *es = sizeof(of_rs_gf_exp[0]); *cnt = sizeof(of_rs_gf_exp) / sizeof(of_rs_gf_exp[0]); return 1;
